@@ -31,16 +31,15 @@ inductive Loc
   | field (base : Loc) (f : String)    -- `&base->f`
   deriving DecidableEq, Repr, Inhabited
 
+/-- C values: integers (NULL is the integer 0, as in C: the traces of the compiled code print it so) and symbolic pointers -/
 inductive Val
   | int (n : Int)
   | ptr (l : Loc)
-  | null
   deriving DecidableEq, Repr, Inhabited
 
 def Val.truthy : Val → Bool
   | .int n => n != 0
   | .ptr _ => true
-  | .null => false
 
 inductive UnOp | lnot | bnot | neg
   deriving DecidableEq, Repr
@@ -137,7 +136,7 @@ def asLoc : Val → Except String Loc
 def eval (env : Env) : Expr → Except String Val
   | .lit n => .ok (.int n)
   | .cst _ n => .ok (.int n)
-  | .null => .ok .null
+  | .null => .ok (.int 0)
   | .var x => match env.vars x with
     | some v => .ok v
     | none => .error s!"unbound local {x}"
